@@ -248,6 +248,9 @@ pub enum MutKind {
     AddEmptyStacks,
     /// a key the format defines for a DIFFERENT table, placed here (e.g. `launch = true` at the top level of a layer TOML)
     InsertMisplaced(String, u8),
+    /// a key of THIS table spelled differently (clear_env, clearEnv, Clear-env, keyword/keywordss): the known key is
+    /// renamed when present, otherwise the misspelling is inserted; either way the table holds an undefined key
+    Respell(String, String, u8),
     /// negative control: unknown key inside free-form metadata must still be accepted
     MetadataUnknownKey,
 }
@@ -281,6 +284,35 @@ fn collect_mutations(fields: &[Field], t: &TV, path: &mut Vec<PathEl>, out: &mut
         out.push(Mutation { path: path.clone(), kind: MutKind::InsertMisplaced(k.to_string(), kind) });
     }
     for fld in fields {
+        let mut spellings: Vec<String> = vec![];
+        if fld.key.contains('-') {
+            spellings.push(fld.key.replace('-', "_"));
+            let mut camel = String::new();
+            let mut up = false;
+            for ch in fld.key.chars() {
+                if ch == '-' {
+                    up = true;
+                } else if up {
+                    camel.extend(ch.to_uppercase());
+                    up = false;
+                } else {
+                    camel.push(ch);
+                }
+            }
+            spellings.push(camel);
+        }
+        let mut cap = fld.key.to_string();
+        if let Some(f) = cap.get(0..1).map(|c| c.to_uppercase()) {
+            cap.replace_range(0..1, &f);
+        }
+        spellings.push(cap);
+        spellings.push(if let Some(stem) = fld.key.strip_suffix('s') { stem.to_string() } else { format!("{}s", fld.key) });
+        for sp in spellings {
+            if sp != fld.key && !sp.is_empty() && !here.contains(&sp.as_str()) && !kv.iter().any(|(kk, _)| *kk == sp) {
+                let kind = match &fld.sch { Sch::Bool => 0, Sch::Str(_) => 1, Sch::Table(_) | Sch::Free => 3, _ => 2 };
+                out.push(Mutation { path: path.clone(), kind: MutKind::Respell(fld.key.to_string(), sp, kind) });
+            }
+        }
         let present = kv.iter().find(|(k, _)| k == fld.key);
         if let Some((_, v)) = present {
             if fld.req && !(ty == Ty::Store && fld.key == "metadata") {
@@ -363,6 +395,10 @@ fn apply(doc: &TV, m: &Mutation) -> TV {
         MutKind::AddEmptyTargets => kv.push(("targets".into(), TV::Array(vec![]))),
         MutKind::AddEmptyStacks => kv.push(("stacks".into(), TV::Array(vec![]))),
         MutKind::InsertMisplaced(k, kind) => kv.push((k.clone(), match kind { 0 => TV::Bool(true), 1 => TV::s("x"), _ => TV::Array(vec![]) })),
+        MutKind::Respell(k, sp, kind) => match kv.iter_mut().find(|(kk, _)| kk == k) {
+            Some(slot) => slot.0 = sp.clone(),
+            None => kv.push((sp.clone(), match kind { 0 => TV::Bool(true), 1 => TV::s("x"), 3 => TV::Table(vec![]), _ => TV::Array(vec![]) })),
+        },
     }
     d
 }
@@ -635,6 +671,7 @@ fn check_doc(ctx: &Ctx, ty: Ty, doc: &TV) -> Check {
             MutKind::AddEmptyTargets => "add-empty-targets".into(),
             MutKind::AddEmptyStacks => "add-empty-stacks".into(),
             MutKind::InsertMisplaced(k, _) => format!("misplaced-key:{k}"),
+            MutKind::Respell(k, sp, _) => format!("respelled-key:{k}->{sp}"),
             MutKind::MetadataUnknownKey => "metadata-unknown-key(control)".into(),
         };
         ctx.class(&format!("mutation:{}", kind_name.split(':').next().unwrap()));
@@ -684,7 +721,7 @@ fn ty_from_name(s: &str) -> Ty {
 }
 
 pub fn run(ctx: &Ctx) {
-    ctx.set_rule("valid documents for ComponentBuildpackDescriptor, CompositeBuildpackDescriptor, BuildpackDescriptor (from component and composite documents), BuildpackPlan, LayerContentMetadata, Launch, Store, PackageDescriptor generated from the harness's own schema of the spec (every optional key present with probability 1/2, 0..3 array-of-table elements, nested free-form metadata, nasty strings) and emitted by the harness's emitter; for each document EVERY single-point mutation: unknown key in each table and array-of-tables element outside metadata, deletion of each required key, retyping of each scalar/array/table, adding order/targets/stacks (also as zero-length arrays), inserting a key that the format defines for a different table; negative control: unknown key inside metadata. Oracle: valid => accepted, classified, values equal with spec defaults filled; mutation => rejected (with the composite/component classification rules). Non-trivial: mutation applied below the top level of a document that has at least one array-of-tables element; distinct = hash of the mutated text.");
+    ctx.set_rule("valid documents for ComponentBuildpackDescriptor, CompositeBuildpackDescriptor, BuildpackDescriptor (from component and composite documents), BuildpackPlan, LayerContentMetadata, Launch, Store, PackageDescriptor generated from the harness's own schema of the spec (every optional key present with probability 1/2, 0..3 array-of-table elements, nested free-form metadata, nasty strings) and emitted by the harness's emitter; for each document EVERY single-point mutation: unknown key in each table and array-of-tables element outside metadata, deletion of each required key, retyping of each scalar/array/table, adding order/targets/stacks (also as zero-length arrays), inserting a key that the format defines for a different table, respelling each key of the table (clear-env -> clear_env / clearEnv / Clear-env, keywords -> keyword, os -> oss; renamed when present, inserted when absent); negative control: unknown key inside metadata. Oracle: valid => accepted, classified, values equal with spec defaults filled; mutation => rejected (with the composite/component classification rules). Non-trivial: mutation applied below the top level of a document that has at least one array-of-tables element; distinct = hash of the mutated text.");
     ctx.assume("store.toml without [metadata] is not generated (spec silent); a component document that already has an empty targets/stacks list plus an added order is not judged");
     for (_p, v) in ctx.regress_files() {
         replay(ctx, "", &v["case"]);
